@@ -333,6 +333,14 @@ func par2GoroutineInvariance(r *Run) {
 		w.Disk.Put(w.Path(0), data)
 		r.Probe("file>=2MiB")
 	}
+	// bound the work per run (every kernel call passes a yield point):
+	// at most ~1.5 million (slice, recovery block) pairs
+	if w.N*w.R > 1500000 {
+		w.R = 1500000 / w.N
+		if w.R < 1 {
+			w.R = 1
+		}
+	}
 	base := w.Disk.Clone()
 	w.G = 1
 	ref := r.Create2(w, w.FilePaths(), nil, SchedSpec{})
